@@ -15,7 +15,7 @@
 EXTENDS LoadUniverse, Json
 
 CONSTANTS KnownDev,
-          WithIntro,   \* also emit the introspection view of the final schema (C17)
+          WithIntro,   \* also emit the introspection view after every accepted load (C17: the answer must follow the history)
           SetIds       \* which definition sets to arrange
 
 DQ1 == ObjectD("Query", <<>>, <<FieldD("n", I, <<>>), FieldD("a", Named("A"), <<>>)>>)
@@ -33,6 +33,8 @@ Sets ==
     s4 |-> <<DTag, DQ1, DATag, DETag, DBTagNull>>,
     s8 |-> <<ObjectD("Query", <<>>, <<FieldD("b", Named("B"), <<>>)>>), DN, DN2, DB2>>,   \* an object implementing two interfaces
     s5 |-> <<DSchemaQ, DQ1, DA1, DE>>,
+    \* an explicit schema block naming only the query root; objects that merely carry the conventional root names
+    s9 |-> <<SchemaD(<<RootD("query", "Top")>>), ObjectD("Top", <<>>, <<FieldD("n", I, <<>>), FieldD("m", Named("Mutation"), <<>>)>>), DMut2, DSub>>,
     s6 |-> <<DQ1, DA1, DE, FIface, DN>>,          \* invalid: Z does not provide N.name
     s7 |-> <<DQ1, DA1, FInOut, DE>> ]              \* invalid: input field of object type
 
@@ -62,7 +64,7 @@ Run(s, docs, i, acc) ==
   IF i > Len(docs) THEN acc
   ELSE LET r == LoadResult(s, docs[i], {}) IN
        Run(r.s, docs, i + 1, Append(acc, [doc |-> docs[i], ok |-> r.ok, why |-> r.why, off |-> r.off, canon |-> Canon(r.s)]
-                                             @@ (IF WithIntro /\ i = Len(docs) /\ r.ok THEN [intro |-> Intro(r.s)] ELSE <<>>)))
+                                             @@ (IF WithIntro /\ r.ok /\ Queryable(r.s) THEN [intro |-> Intro(r.s)] ELSE <<>>)))
 
 AInit == phase = "set" /\ setid \in SetIds /\ base = <<>> /\ hist = <<>>
 \* step 1: permute (optionally after moving one member into an extend block)
